@@ -269,8 +269,11 @@ CHECKS = {
         "on the model and compares every dump row (address label and bytes) with the model memory; canaries (one dump "
         "byte flipped) must be rejected.",
    design_ref="DESIGN.md 4 C19",
-   note="Covers the write*/print* commands and the loader's placement only; the simulator's view of the same bytes is "
-        "covered by C14/C15, and interactive assembly, disasm ranges, symbols, -address/-set_pc are not modelled here.",
+   note="Also 'agrees with what the simulator then fetches': Util!LoadBytes/ImmAt describe one load-immediate instruction "
+        "per CPU (msp430, 6502, z80, avr8) from the architecture manuals; TLC enumerates sessions that write it with write*, "
+        "optionally overwrite its immediate with a second write of another width, then set pc / step / registers, and "
+        "Util!FetchOk requires the register to hold the immediate that is in the model's memory. Interactive assembly, "
+        "symbol-name ranges and -set_pc are not modelled; disasm ranges and -address are exercised by C08's range half.",
    technique="TLA+ model of naken_util memory commands; TLC-enumerated sessions replayed into the real naken_util; "
              "TLC trace acceptor over the printed dumps"),
  "C20": dict(
